@@ -175,7 +175,10 @@ def tbl(rows):
 # ------------------------------------------------------------------------------------------------
 
 HEADERS = ["", "# x\ty", "# libphysica table", "# line one\n# line two", "// a\n// b\n// c", "# 1 2 3", "header\n",
-           "#", "# units: GeV cm\n#\n# 3 columns", "x [GeV]    y [cm^2]"]
+           "#", "# units: GeV cm\n#\n# 3 columns", "x [GeV]    y [cm^2]",
+           # blank / white-space-only header lines and headers ending in a newline: "the number of header lines
+           # written" is the number of '\n' in the header + 1, blank lines included
+           "# title\n\n# x\ty", "# a\n \t \n# b", "\n# x", "# t\n\n", "# one\n# two\n", " ", "# a\n\n\n# b"]
 
 
 def gen_value(rng, kind=None):
